@@ -424,8 +424,14 @@ Duality ==
                           ELSE RMul(orc[1].occ[s], Norm(RPi(M, w, s), M.PD * QD))], M.N)
 
 \* (P6) instance filter: well-formed MDP, valid policy, no dead end, rewards <= 0 when undiscounted
+\* MDP!WellFormed with the discount 0 admitted (GN = 0: only the immediate reward counts)
+WellFormed0(m) ==
+  /\ \A s \in St(m) : \A a \in Avail(m, s) : SumTo([t \in St(m) |-> m.P[s][a][t]], m.N) = m.PD
+  /\ \A s \in St(m) : \A a \in Ac(m) : \A t \in St(m) : m.P[s][a][t] >= 0
+  /\ SumTo([s \in St(m) |-> m.p0[s]], m.N) = m.ID
+  /\ m.GN >= 0 /\ m.GN <= m.GD /\ m.GD > 0
 InstanceOK == phase = "init" =>
-  /\ WellFormed(M)
+  /\ WellFormed0(M)
   /\ PolicyOK(M, w)
   /\ FlagsOK(M, w, tn)
   /\ M.near1 = 1 => (Discounted(M) /\ Discounted(AltM(M)))
